@@ -19,10 +19,11 @@ ASSUMPTIONS = ["B's jump network is compared with A's by geometry first; a misma
 SHARDS = {"quick": 8, "thorough": 16}
 EXCLUDE_R11 = "R11" in known_ids("known")
 UNI3 = [[[1, 1, 0], [0, 1, 0], [0, 0, 1]], [[1, 0, 0], [0, 1, 1], [0, 0, 1]], [[1, 0, 1], [0, 1, 0], [0, 0, 1]], [[0, 1, 0], [0, 0, 1], [1, 0, 0]],
-        [[1, 0, 0], [-1, 1, 0], [0, 0, 1]], [[1, 1, 0], [0, 1, 1], [0, 0, 1]], [[0, 1, 0], [1, 0, 0], [0, 0, -1]], [[1, 0, 0], [0, 1, 0], [1, -1, 1]]]
-UNI2 = [[[1, 1], [0, 1]], [[1, 0], [-1, 1]], [[0, 1], [-1, 0]], [[1, -1], [0, 1]], [[0, -1], [1, 1]]]
+        [[1, 0, 0], [-1, 1, 0], [0, 0, 1]], [[1, 1, 0], [0, 1, 1], [0, 0, 1]], [[0, 1, 0], [1, 0, 0], [0, 0, -1]], [[1, 0, 0], [0, 1, 0], [1, -1, 1]],
+        [[0, 1, 0], [1, 0, 0], [0, 0, 1]], [[1, 0, 0], [0, 1, 0], [0, 0, -1]]]   # the last two are left-handed
+UNI2 = [[[1, 1], [0, 1]], [[1, 0], [-1, 1]], [[0, 1], [-1, 0]], [[1, -1], [0, 1]], [[0, -1], [1, 1]], [[0, 1], [1, 0]], [[1, 0], [0, -1]]]
 SUP3 = [[[2, 0, 0], [0, 1, 0], [0, 0, 1]], [[1, 0, 0], [0, 1, 0], [0, 0, 2]], [[1, 1, 0], [-1, 1, 0], [0, 0, 1]], [[1, 0, 1], [0, 1, 0], [-1, 0, 1]], [[2, 0, 0], [0, 2, 0], [0, 0, 1]],
-        [[-1, 1, 1], [1, -1, 1], [1, 1, -1]], [[1, 0, 0], [0, 1, 0], [0, 0, 3]], [[0, 1, 1], [1, 0, 1], [1, 1, 0]]]
+        [[-1, 1, 1], [1, -1, 1], [1, 1, -1]], [[1, 0, 0], [0, 1, 0], [0, 0, 3]], [[0, 1, 1], [1, 0, 1], [1, 1, 0]], [[0, 2, 0], [1, 0, 0], [0, 0, 1]]]
 SUP2 = [[[2, 0], [0, 1]], [[1, 1], [-1, 1]], [[1, 0], [0, 2]], [[2, 1], [0, 1]], [[2, 0], [0, 2]], [[1, 0], [0, 3]]]
 
 
